@@ -30,6 +30,8 @@ func main() {
 		os.Exit(cmdLock(os.Args[2:]))
 	case "units":
 		cmdUnits(os.Args[2:])
+	case "mapranges":
+		cmdMapRanges(os.Args[2:])
 	case "replay":
 		os.Exit(cmdReplay(os.Args[2:]))
 	case "selftest":
